@@ -354,7 +354,7 @@ fn put_bad(out: &mut String, reason: &str) {
 // cases
 // ---------------------------------------------------------------------------
 
-fn hash_of(v: &Version) -> u64 {
+fn hash_of<T: Hash>(v: &T) -> u64 {
     let mut h = DefaultHasher::new();
     v.hash(&mut h);
     h.finish()
@@ -375,10 +375,40 @@ macro_rules! tuple_case {
     }};
 }
 
+/// two parse results are the same outcome: the same value in every field (`Debug` shows all of them), or the same error
+fn same_outcome<T: std::fmt::Debug>(a: &Result<T, SemverError>, b: &Result<T, SemverError>) -> bool {
+    match (a, b) {
+        (Ok(x), Ok(y)) => format!("{:?}", x) == format!("{:?}", y),
+        (Err(x), Err(y)) => x.input() == y.input() && x.offset() == y.offset() && format!("{:?}", x.kind()) == format!("{:?}", y.kind()),
+        _ => false,
+    }
+}
+
+/// `==` and `Hash` of `Range` against its structure: a range equals (and hashes like) what its printed form parses to exactly
+/// when the two have the same structure up to build metadata, and it always equals its own clone
+fn eq_hash_consistent(r: &Range) -> bool {
+    let same = r.clone();
+    if !(*r == same && hash_of(r) == hash_of(&same)) {
+        return false;
+    }
+    match Range::parse(r.to_string()) {
+        Ok(back) => {
+            let structurally = format!("{:?}", back) == format!("{:?}", r);
+            // structural identity implies `==` and equal hashes; `==` implies equal hashes
+            (!structurally || back == *r) && (back != *r || hash_of(&back) == hash_of(r))
+        }
+        Err(_) => true,
+    }
+}
+
 /// Evaluates one case, appending RESULT to `out`. `None` means `(badcase)`.
 fn eval(case: &Sx, out: &mut String) -> Option<()> {
     let (head, args) = case.tagged()?;
     match (head, args) {
+        ("vparse", [s]) if !same_outcome(&Version::parse(s.string()?), &s.string()?.parse::<Version>()) => {
+            // `FromStr` must be `Version::parse`
+            out.push_str("(inconsistent)");
+        }
         ("vparse", [s]) => match Version::parse(s.string()?) {
             Ok(v) => {
                 out.push_str("(ok ");
@@ -456,6 +486,10 @@ fn eval(case: &Sx, out: &mut String) -> Option<()> {
             }
         }
 
+        ("rparse", [s]) if !same_outcome(&Range::parse(s.string()?), &s.string()?.parse::<Range>()) => {
+            // `FromStr` must be `Range::parse`
+            out.push_str("(inconsistent)");
+        }
         ("rparse", [s]) => match Range::parse(s.string()?) {
             Ok(r) => {
                 out.push_str("(ok ");
@@ -467,6 +501,7 @@ fn eval(case: &Sx, out: &mut String) -> Option<()> {
 
         ("rprint", [e]) => match eval_e(e)? {
             None => out.push_str("(none)"),
+            Some(r) if !eq_hash_consistent(&r) => out.push_str("(inconsistent)"),
             Some(r) => {
                 out.push('(');
                 put_estruct(out, &r);
@@ -798,6 +833,27 @@ fn serde_v(out: &mut String, s: &str) {
     if back.build != v.build {
         return put_bad(out, "build differs");
     }
+    // the same JSON through the other transports serde_json offers: a byte reader, a `Value` tree, an escaped spelling of the string
+    let whole = format!("{:?}", v);
+    match serde_json::from_reader::<_, Version>(json.as_bytes()) {
+        Ok(b) if format!("{:?}", b) == whole => {}
+        Ok(_) => return put_bad(out, "from_reader gives another version"),
+        Err(e) => return put_bad(out, &format!("from_reader failed: {}", e)),
+    }
+    match serde_json::to_value(&v).and_then(serde_json::from_value::<Version>) {
+        Ok(b) if format!("{:?}", b) == whole => {}
+        Ok(_) => return put_bad(out, "to_value/from_value gives another version"),
+        Err(e) => return put_bad(out, &format!("to_value/from_value failed: {}", e)),
+    }
+    let escaped: String = std::iter::once('"'.to_string())
+        .chain(v.to_string().chars().map(|c| format!("\\u{:04x}", c as u32)))
+        .chain(std::iter::once('"'.to_string()))
+        .collect();
+    match serde_json::from_str::<Version>(&escaped) {
+        Ok(b) if format!("{:?}", b) == whole => {}
+        Ok(_) => return put_bad(out, "the escaped spelling of the JSON string gives another version"),
+        Err(e) => return put_bad(out, &format!("the escaped spelling of the JSON string is rejected: {}", e)),
+    }
     out.push_str("ok");
 }
 
@@ -811,6 +867,13 @@ fn serde_r(out: &mut String, r: &Range) {
         return put_bad(out, &format!("json {} differs from {}", json, expected));
     }
     let back: Option<Range> = serde_json::from_str(&json).ok();
+    // the other transports must agree with `from_str`
+    let want = back.as_ref().map(|b| format!("{:?}", b));
+    let via_reader = serde_json::from_reader::<_, Range>(json.as_bytes()).ok().map(|b| format!("{:?}", b));
+    let via_value = serde_json::to_value(r).and_then(serde_json::from_value::<Range>).ok().map(|b| format!("{:?}", b));
+    if via_reader != want || via_value != want {
+        return put_bad(out, "from_reader / from_value disagree with from_str");
+    }
     out.push('(');
     put_estruct(out, r);
     out.push(' ');
